@@ -1,0 +1,38 @@
+//go:build verif
+
+package generator
+
+// Contract families for the functions that the templates in this directory
+// emit. The file holds comments only: with or without the `verif` build tag the
+// compiled generator is byte-identical. goagvc (/verif/engine) reads the //@
+// lines, instantiates each family for every emitted package of its corpus and
+// generates verification conditions from the go/ssa form of the emitted code.
+//
+// Spec functions (first, rest, startsSlash, refRouteAt, wrap, ...) are defined
+// in /verif/DESIGN.md §6; SPEC and NODE are filled in by the instantiator from
+// the OpenAPI document, never from the template.
+
+// ---- file_router.gotmpl: Router -------------------------------------------
+
+//@ emitted func splitPath(s string) (a string, b string)
+//@   pure
+//@   option props=C03,C05
+//@   ensures a == first(s)
+//@   ensures b == rest(s)
+//@   ensures b == "" || startsSlash(b)
+
+//@ emitted func middlewares(h http.Handler, ms ...Middleware) http.Handler
+//@   pure
+//@   purefunc
+
+//@ emitted func authMiddlewareOr(fns ...AuthMiddleware) MiddlewareFunc
+//@   pure
+//@   purefunc
+
+// ---- file_router.gotmpl: Route --------------------------------------------
+
+//@ emitted func (*API).route*(path string, method string) (h http.Handler, out string, hasPath bool)
+//@   pure
+//@   option family=route
+//@   requires path == "" || startsSlash(path)          // every node but the root
+//@   ensures (h, out, hasPath) == refRouteAt(SPEC, NODE, path, method)
